@@ -151,8 +151,8 @@ class AabbTree:
         is_overlapping = len(overlap_pairs) > 0
         return (
             is_overlapping,
-            np.unique(overlap_tetrahedron1),
-            np.unique(overlap_tetrahedron2),
+            np.unique(overlap_tetrahedron1).astype(int),
+            np.unique(overlap_tetrahedron2).astype(int),
             overlap_pairs,
         )
 
